@@ -132,6 +132,8 @@ mod sign;
 mod sqr;
 mod third_party;
 mod ubig;
+#[cfg(dashu_verif)]
+pub mod verif;
 
 // All the public items from third_party will be exposed
 #[allow(unused_imports)]
